@@ -4,6 +4,11 @@ package stateful
 // to evaluation functions
 type ExecutionState struct {
 	Funcs Funcs
+
+	// lambdas holds the state of each lambda expression referenced from the
+	// expression this state belongs to. A referenced lambda has its own functions,
+	// but one set per execution state, not one per compiled node.
+	lambdas map[*EvalLambdaNode]ExecutionState
 }
 
 func CreateExecutionState() ExecutionState {
@@ -12,9 +17,36 @@ func CreateExecutionState() ExecutionState {
 	}
 }
 
+// createExpressionState creates the execution state owned by an Expression.
+// It also tracks the states of referenced lambdas, so that the copies of an
+// expression (one per group) do not share them.
+func createExpressionState() ExecutionState {
+	return ExecutionState{
+		Funcs:   NewFunctions(),
+		lambdas: make(map[*EvalLambdaNode]ExecutionState),
+	}
+}
+
 func (ea ExecutionState) ResetAll() {
 	// Reset the functions
 	for _, f := range ea.Funcs {
 		f.Reset()
 	}
+	for _, l := range ea.lambdas {
+		l.ResetAll()
+	}
+}
+
+// lambdaState returns the state of the referenced lambda n within this execution state.
+func (ea ExecutionState) lambdaState(n *EvalLambdaNode) ExecutionState {
+	if ea.lambdas == nil {
+		// Not owned by an Expression, all we have is the state of the node itself.
+		return n.state
+	}
+	s, ok := ea.lambdas[n]
+	if !ok {
+		s = createExpressionState()
+		ea.lambdas[n] = s
+	}
+	return s
 }
